@@ -2,6 +2,7 @@
 //! /repo's working tree).  `gen <family> <size> <seed>` prints case lines; `exec` reads case
 //! lines from stdin and prints one `O <observation>` line per case, in order.
 
+mod exec_parallel;
 mod exec_reader;
 mod exec_write;
 mod gen;
@@ -14,9 +15,30 @@ fn exec_line(line: &str) -> String {
         exec_reader::run_case(line)
     } else if line.starts_with("W ") {
         exec_write::run_case(line)
+    } else if line.starts_with("X ") {
+        let before = exec_parallel::thread_count();
+        let r = exec_parallel::run_x(line);
+        format!("{} leak={}", r, leaked(before))
+    } else if line.starts_with("Y ") {
+        let before = exec_parallel::thread_count();
+        let r = exec_parallel::run_y(line);
+        format!("{} leak={}", r, leaked(before))
     } else {
         "bad-case".to_string()
     }
+}
+
+/// threads left over after a parallel call (pool workers exit on their own shortly after the
+/// pool is dropped: poll with a grace period)
+fn leaked(before: usize) -> usize {
+    for _ in 0..400 {
+        let now = exec_parallel::thread_count();
+        if now <= before {
+            return 0;
+        }
+        std::thread::sleep(std::time::Duration::from_millis(5));
+    }
+    exec_parallel::thread_count().saturating_sub(before)
 }
 
 fn main() {
